@@ -1,3 +1,4 @@
+import DiffxVerif.Spec.Document
 import DiffxVerif.Model.Split
 import DiffxVerif.Model.Hunks
 import DiffxVerif.Model.Reader
@@ -103,6 +104,52 @@ def opRead (cfg : Config) (tbl : Table) (args : List String) : String :=
           | .outOfFuel => "fuel"
           | .needEnv _ => "?"
         " ".intercalate (["R", os, toString rs.length] ++ rs.map showRecord)
+    | _, _ => "E bad-args"
+  | _ => "E bad-args"
+
+/-- a section of a specification document: `level.name;k:v,k:v|-;line,line|-;content|-`
+(keys, values, blank lines and content as hex) -/
+def decSpecSec (tok : String) : Option Spec.Sec :=
+  match tok.splitOn ";" with
+  | [sid, opts, blank, content] => do
+    let id ← match sid.splitOn "." with
+      | [l, n] => do
+        let lv ← l.toNat?
+        let nm ← SecName.all.find? (fun x => String.ofList (x.bytes.map (fun b => Char.ofNat b.toNat)) == n)
+        pure (⟨lv, nm⟩ : SecId)
+      | _ => none
+    let os ← if opts == "-" then some [] else
+      (opts.splitOn ",").mapM fun p => match p.splitOn ":" with
+        | [k, v] => do pure ((← unhexL k.toList), (← unhexL v.toList))
+        | _ => none
+    let bl ← if blank == "-" then some [] else (blank.splitOn ",").mapM fun l => unhexL l.toList
+    let c ← if content == "-" then some [] else unhexL content.toList
+    pure { id := id, opts := os, blank := bl, content := c }
+  | _ => none
+
+/-- `specread <chunk> <crlf> <section>…` : the file `Spec.render` gives for the document, what
+the reader model reads from it, and `Spec.reading` of the document (C03_file says they agree
+for well-formed documents).  Environment answers are requested through the reader model. -/
+def opSpecRead (cfg : Config) (tbl : Table) (args : List String) : String :=
+  match args with
+  | c :: crlf :: secs =>
+    match c.toNat?, secs.mapM decSpecSec with
+    | some chunk, some doc =>
+      let env := mkEnv tbl
+      let data := Spec.render (crlf == "1") doc
+      let (rs, o) := Reader.readAll env cfg chunk data
+      match o with
+      | .needEnv q => "Q " ++ q
+      | _ =>
+        let os := match o with
+          | .done => "done"
+          | .parseError l c => s!"perr:{l}:{showOptNat c}"
+          | .assertion => "assert"
+          | .outOfFuel => "fuel"
+          | .needEnv _ => "?"
+        let sp := Spec.reading env cfg doc
+        " ".intercalate (["R", encBytes data, "|", os, toString rs.length] ++ rs.map showRecord ++
+          ["|", "done", toString sp.length] ++ sp.map showRecord)
     | _, _ => "E bad-args"
   | _ => "E bad-args"
 
@@ -410,6 +457,7 @@ def runOp (s : DState) (toks : List String) : String :=
   | "nlfor" :: args => opNlFor s.cfg s.tbl args
   | "guess" :: args => opGuess s.cfg s.tbl args
   | "read" :: args => opRead s.cfg s.tbl args
+  | "specread" :: args => opSpecRead s.cfg s.tbl args
   | "write" :: args => opWrite s.cfg s.tbl args
   | "lex" :: args => opLex args
   | "heap" :: args => opHeap args
